@@ -349,7 +349,10 @@ def check_sup_and_wiring(project: Project, rep):
             pv, cv = b_.get("p"), b_.get("critical_pairs")
             want = "self.critical_pairs" if kind == "exact" else "self.values_to_pairs()"
             p_name = pn.params[1] if len(pn.params) > 1 else "p"
-            if pv == p_name and cv == want:
+            if pv == p_name and cv != want and kind != "exact" and _copy_of_same_source(project, c, cv):
+                rep.discharged("NM-WIRE", pn, n, f"{kind}: _p_norm(p=p, critical_pairs={cv}) — values_to_pairs() hands out a copy of "
+                                                 f"the same pairs")
+            elif pv == p_name and cv == want:
                 rep.discharged("NM-WIRE", pn, n, f"{kind}: _p_norm(p=p, critical_pairs={want})")
             elif pv is not None and cv is not None and (cv.startswith("self.") or pv != p_name):
                 rep.refuted("NM-WIRE", pn, n, f"{kind}: _p_norm is called with p={pv}, critical_pairs={cv} (expected p, {want})")
@@ -371,6 +374,27 @@ def check_sup_and_wiring(project: Project, rep):
         rep.discharged("NM-SUP", base, sup_if[0], "p == -1 is routed to sup_norm", nontrivial=False)
     else:
         rep.refuted("NM-SUP", base, b, "p == -1 is not routed to the sup-norm")
+
+
+def _copy_of_same_source(project, cls, cv: str) -> bool:
+    """`cv` is `self.<m>()` and values_to_pairs() returns exactly that (possibly copied): the integrator is fed the pairs the
+    public accessor hands out"""
+    v2p = cls.lookup("values_to_pairs", project)
+    if v2p is None or not cv.startswith("self.") or not cv.endswith("()"):
+        return False
+    rets = [r.value for r in ast.walk(v2p.node) if isinstance(r, ast.Return) and r.value is not None]
+    if len(rets) != 1:
+        return False
+    e = rets[0]
+    while True:
+        if isinstance(e, ast.Call) and isinstance(e.func, ast.Attribute) and e.func.attr == "copy" and not e.args:
+            e = e.func.value
+        elif isinstance(e, ast.Call) and len(e.args) == 1 and not e.keywords and isinstance(e.func, (ast.Name, ast.Attribute)) \
+                and (e.func.attr if isinstance(e.func, ast.Attribute) else e.func.id) in ("copy", "array", "deepcopy"):
+            e = e.args[0]
+        else:
+            break
+    return ast.unparse(e) == cv
 
 
 def _must_compute(project, fi, cls, memo):
